@@ -736,11 +736,25 @@ def base_leaves_for_derived():
     out.append({"cls": "CircularConvolve", "hshape": [2], "ishape": [3], "ndims": 1, "hdt": C128, "idt": R64})
     out.append({"cls": "Diagonal", "dshape": [1, 3], "ishape": [2, 3], "dt": C128})
     out.append({"cls": "Diagonal", "dshape": [[2], [1, 2]], "ishape": None, "dt": C128})
+    out.append({"cls": "Diagonal", "dshape": [2, 3], "ishape": None, "dt": C128})
+    out.append({"cls": "Diagonal", "dshape": [2, 3], "ishape": [3], "dt": C128})
+    out.append({"cls": "ScaledIdentity", "ishape": [2, 3], "dt": C128, "c": [0.5, 1.5]})
+    out.append({"cls": "Identity", "ishape": [2, 3], "dt": C128})
     out.append({"cls": "MatrixOperator", "m": 2, "n": 3, "dt": C128, "cols": 2})
     out.append({"cls": "XRayTransform2D", "ishape": [3, 3], "angles": [0.3, 1.1]})
     out.append({"cls": "VerticalStack", "co": True, "ops": [_seeded(_leaf("mat", C128, (3,), (2,))), _seeded(_leaf("gen", C128, (3,), (2,)))]})
     out.append({"cls": "DiagonalStack", "ci": True, "co": False, "ops": [_seeded(_leaf("gen", C128, (3,), (2,))), _seeded(_leaf("diag", C128, (3,)))]})
     return [_seeded(dict(c)) for c in out]
+
+
+def leaf_signatures(leaves):
+    """(input_shape, output_shape, input_dtype, output_dtype) of every operand, from the real objects"""
+    sig = []
+    for c in leaves:
+        A = build(c)
+        norm = lambda sh: str(tuple(sh) if not isinstance(sh, (int, np.integer)) else (int(sh),))
+        sig.append((norm(A.input_shape), norm(A.output_shape), str(np.dtype(A.input_dtype)), str(np.dtype(A.output_dtype))))
+    return sig
 
 
 def g_derived():
@@ -751,13 +765,67 @@ def g_derived():
         for c in [2.0, -0.5, [0.5, 1.5], [0.0, 1.0]]:
             for f in ["smul", "rsmul", "sdiv"]:
                 yield {"cls": "Derived", "form": f, "c": c, "a": a}
-    # binary forms: all ordered pairs with matching declared (flattened) signature are attempted; those the
-    # library rejects at construction are counted as rejected, not as failures
-    for a, b in itertools.product(leaves, leaves):
-        yield {"cls": "Derived", "form": "add", "a": a, "b": b}
-        yield {"cls": "Derived", "form": "sub", "a": a, "b": b}
-        yield {"cls": "Derived", "form": "comp", "a": a, "b": {"cls": "Derived", "form": "H", "a": b}}
-        yield {"cls": "Derived", "form": "comp", "a": {"cls": "Derived", "form": "T", "a": a}, "b": b}
+    # binary forms over all ordered pairs whose declared SHAPES conform (dtypes may differ: that is part of the
+    # property - the result must either be rejected at construction or have a working adjoint)
+    sig = leaf_signatures(leaves)
+    for (a, sa), (b, sb) in itertools.product(list(zip(leaves, sig)), repeat=2):
+        if sa[0] == sb[0] and sa[1] == sb[1]:
+            yield {"cls": "Derived", "form": "add", "a": a, "b": b}
+            yield {"cls": "Derived", "form": "sub", "a": a, "b": b}
+        if sa[0] == sb[1]:
+            yield {"cls": "Derived", "form": "comp", "a": a, "b": b}
+        if sa[0] == sb[0]:
+            yield {"cls": "Derived", "form": "comp", "a": a, "b": {"cls": "Derived", "form": "H", "a": b}}
+        if sa[1] == sb[1]:
+            yield {"cls": "Derived", "form": "comp", "a": {"cls": "Derived", "form": "T", "a": a}, "b": b}
+
+
+def g_shortcuts():
+    """binary forms between operands of classes that override +, -, @ with closed forms (always run)"""
+    fam = []
+    for dt in (C128, R64):
+        d23 = [
+            {"cls": "Diagonal", "dshape": [2, 3], "ishape": None, "dt": dt},
+            {"cls": "Diagonal", "dshape": [1, 3], "ishape": [2, 3], "dt": dt},
+            {"cls": "Diagonal", "dshape": [2, 3], "ishape": [3], "dt": dt},
+            {"cls": "Diagonal", "dshape": [2, 1, 3], "ishape": [1, 3], "dt": dt},
+            {"cls": "ScaledIdentity", "ishape": [2, 3], "dt": dt, "c": [0.5, 1.5] if cplx(dt) else -1.5},
+            {"cls": "Identity", "ishape": [2, 3], "dt": dt},
+            {"cls": "ScaledIdentity", "ishape": [3], "dt": dt, "c": 2.0},
+            {"cls": "Identity", "ishape": [3], "dt": dt},
+            {"cls": "Diagonal", "dshape": [[2], [1, 2]], "ishape": None, "dt": dt},
+            {"cls": "Identity", "ishape": [[2], [1, 2]], "dt": dt},
+        ]
+        mats = [
+            {"cls": "MatrixOperator", "m": 3, "n": 3, "dt": dt, "cols": 0},
+            {"cls": "MatrixOperator", "m": 2, "n": 3, "dt": dt, "cols": 0},
+            {"cls": "MatrixOperator", "m": 3, "n": 2, "dt": dt, "cols": 0, "x": 1},
+            {"cls": "MatrixOperator", "m": 3, "n": 3, "dt": dt, "cols": 2},
+            {"cls": "Identity", "ishape": [3], "dt": dt},
+            {"cls": "Generic", "m": 3, "n": 3, "idt": dt, "odt": dt},
+        ]
+        convs = [
+            {"cls": "CircularConvolve", "hshape": [2], "ishape": [3], "ndims": 1, "hdt": dt, "idt": dt},
+            {"cls": "CircularConvolve", "hshape": [3], "ishape": [3], "ndims": 1, "hdt": dt, "idt": dt, "x": 1},
+            {"cls": "Convolve", "hshape": [2], "ishape": [3], "mode": "same", "hdt": dt, "idt": dt},
+            {"cls": "Convolve", "hshape": [2], "ishape": [3], "mode": "same", "hdt": dt, "idt": dt, "x": 1},
+            {"cls": "ConvolveByX", "hshape": [2], "ishape": [3], "mode": "full", "hdt": dt, "idt": dt},
+            {"cls": "ConvolveByX", "hshape": [2], "ishape": [3], "mode": "full", "hdt": dt, "idt": dt, "x": 1},
+        ]
+        fam += [d23, mats, convs]
+    for group in fam:
+        group = [_seeded(dict(c)) for c in group]
+        sig = leaf_signatures(group)
+        for (a, sa), (b, sb) in itertools.product(list(zip(group, sig)), repeat=2):
+            if sa[0] == sb[0] and sa[1] == sb[1]:
+                yield {"cls": "Derived", "form": "add", "a": a, "b": b}
+                yield {"cls": "Derived", "form": "sub", "a": a, "b": b}
+            if sa[0] == sb[1]:
+                yield {"cls": "Derived", "form": "comp", "a": a, "b": b}
+
+
+def shortcut_grid():
+    return [_seeded(c) for c in g_shortcuts()]
 
 
 GENERATORS = [g_generic, g_matrix, g_diag, g_scaledid, g_circ, g_conv, g_dft, g_fd, g_func, g_grad, g_stack, g_drep, g_misc, g_xray]
